@@ -15,7 +15,8 @@ DECIDES = ('(a) edge-triggered reset must be state-independent: the block of Hea
            'lrty/lbad/keepalive/ignore flags=0, and on usb_reset also expected_sequence_number=0 and next_header_to_ack=-1; '
            '(c) dispatch order LGOOD before LCRD before LBAD, and nothing is dispatched while disabled; (d) the link layer '
            'wires enable <- ltssm.link_ready and usb_reset <- in_reset; (e) with a latched event pending the block fires whenever '
-           'its state is reached, whatever else holds there (in particular with enable high again). ')
+           'its state is reached, whatever else holds there (in particular with enable high again); (f) with the flags the block clears '
+           'at 0 and every flag it does not clear left free, the next command dispatched is LGOOD, then LCRD. ')
 NOT_DECIDED = 'link commands that are still completed after the link went down; the partner side.'
 
 
